@@ -89,13 +89,19 @@ pub fn c12c_order(i: &mut In, _p: &[i64]) {
 pub fn c12d_frac(i: &mut In, p: &[i64]) {
   let x = i.f64();
   i.assume(x >= p[0] as f64 - 0.5 && x < p[1] as f64 + 0.5);
+  if p.len() > 2 {
+    // hour slice [h, h+1) of some day of the window (a split of the same obligation, to keep each query small)
+    let dn = i.int(p[0], p[1]);
+    let base = dn as f64 - 0.5;
+    i.assume(x >= base + (p[2] as f64) / 24.0 && x < base + ((p[2] + 1) as f64) / 24.0);
+  }
   // beyond 9999-12-31 23:59:59.5 the rounded instant is outside the supported range
   i.assume(x < 5373484.5 - 0.5 / 86400.0);
   let t = JulianDay::from_julian_day(x).get_solar_time();
   let back = t.get_julian_day().get_day();
   let err = (back - x) * 86400.0;
   assert!(err <= 0.501 && err >= -0.501);
-  witness!(t.get_hour() == 0 && t.get_minute() == 0 && t.get_second() == 0 && back > x, "rounded up to midnight");
+  witness!(p.len() > 2 && p[2] != 23 || (t.get_hour() == 0 && t.get_minute() == 0 && t.get_second() == 0 && back > x), "rounded up to midnight (hour 23 slice / unsplit)");
   witness!(t.get_second() == 59, "second 59");
 }
 
@@ -105,13 +111,13 @@ pub fn c12e_roundtrip(i: &mut In, p: &[i64]) {
   let m = if p[2] == 0 { i.int(1, 12) } else { p[2] };
   let d = i.int(1, 31);
   i.assume(valid(y, m, d));
-  let t = draw_hms(i);
+  let t = if p.len() > 3 { (p[3], i.int(0, 59), i.int(0, 59)) } else { draw_hms(i) };
   let a = st((y, m, d), t);
   let b = a.get_julian_day().get_solar_time();
   assert!(date_of(&b) == (y, m, d));
   assert!(hms_of(&b) == t);
-  witness!(t == (23, 59, 59) && d == last_day(y, m), "last second of a month");
-  witness!(t == (0, 0, 0), "midnight");
+  witness!(t.1 == 59 && t.2 == 59 && d == last_day(y, m), "last second of an hour on the last day of a month");
+  witness!(t.1 == 0 && t.2 == 0, "full hour");
 }
 
 pub fn registry() -> Vec<(&'static str, Body)> {
